@@ -112,7 +112,18 @@ func dealCommitData(node *raftconn.RaftNode, client metaclient.MetaClient, stora
 	} else if dataWrapper.DataType == raftlog.ClearEntryLog {
 		bytes := dataWrapper.Data
 		index := encoding.UnmarshalUint64(bytes)
-		err := node.Store.DeleteBefore(index)
+		// The index was computed by the leader from its own snapshot. This node replays its log from
+		// its own snapshot index after a restart (nothing applied from the log is in a shard WAL), so
+		// it must keep every entry from there on, however far the leader has flushed.
+		sp, err := node.Store.Snapshot()
+		if err != nil {
+			logger.GetLogger().Error("reading snapshot err when dealCommitData", zap.Error(err), zap.String("db", database), zap.Uint32("pt", ptId))
+			return
+		}
+		if index = raftlog.ClearIndex(index, sp.Metadata.Index); index == 0 {
+			return
+		}
+		err = node.Store.DeleteBefore(index)
 		if err != nil {
 			logger.GetLogger().Error("deleting entryLog err when dealCommitData", zap.Error(err), zap.String("db", database), zap.Uint32("pt", ptId))
 		}
